@@ -55,6 +55,12 @@ CHECKS = {
         "Trusted: rustc's evaluation of `E::V as i128`; Miri; the reference rule (first = 0, successor = previous + 1, range of the base type, default marker iff defaultable); duplicate discriminants unspecified here (C13).",
         "DESIGN.md §6 C08",
     ),
+    "C09": (
+        "schedule-enumerating determinism monitor: work-list hook permutations (complete <=6 items), re-drawn priorities, module add/write orders, repeated in-process builds, fresh child processes; byte comparison of outputs",
+        "For order-sensitive input sets (generated programs, dependency graphs incl. failing ones, dedicated sets around generated vftable structs, base fields with explicit addresses, marker chains, cross-module cycles) drives the real build under every priority permutation of the user items through the hook in TypeRegistry::unresolved (complete for <=6 items, sampled beyond), priorities re-drawn on new registry keys, all module addition and write orders, repeated builds with fresh hash keys and fresh child processes on a real directory, and requires one Ok/Err verdict and byte-identical files. Exhaustive over work-list priority orders for small sets; sampled otherwise.",
+        "Trusted: the scheduler hook realises only orders a hash map could produce (priority order fixed until a new key is registered); error texts are not compared.",
+        "DESIGN.md §6 C09",
+    ),
     "C10": (
         "differential build-verdict monitor over generated dependency graphs + hook-trace online checker (resolution order, progress, iteration bound) + exhaustive 3-type digraphs",
         "Builds random dependency graphs (2-12 types, enums, 1-4 modules; pointer cycles, by-value chains and cycles through fields/arrays/bases, undefined names in every position) and all 19683 labelled digraphs on 3 types with the real pyxis and compares Ok/Err, the type list of the non-termination error, the registry and the emitted items/signatures with the reference (least fixpoint of sizeable items); the hook trace is checked online: a type resolves only after its by-value dependencies, never twice, every continuing iteration makes progress, iterations <= items+1. Exhaustive for the digraph space, sampled beyond.",
